@@ -102,8 +102,8 @@ mod c06 {
 
 def spec(ctx):
     hs = [
-        Harness("c06_accessors_agree", "e2", timeout=120, split=True, allow_fail=CTOR_REJECTS, clause="real constructor, all f32 inputs on which it returns, all i64 query times: piece/mode/acceleration/velocity/position/history describe the same instant"),
-        Harness("c06_pieces_never_go_back", "e2", split=True, timeout=120, clause="arbitrary phase boundaries (hook): piece order monotone in t; exact intervals when ordered"),
+        Harness("c06_accessors_agree", "e2", timeout=400, split=True, allow_fail=CTOR_REJECTS, clause="real constructor, all f32 inputs on which it returns, all i64 query times: piece/mode/acceleration/velocity/position/history describe the same instant"),
+        Harness("c06_pieces_never_go_back", "e2", split=True, timeout=400, clause="arbitrary phase boundaries (hook): piece order monotone in t; exact intervals when ordered"),
     ]
     nd = ["phase boundaries at or beyond 2^60 ns (rrtk's checked i64 arithmetic may panic there)"]
     # measured (thorough run, 2026-10-03): t1 >= 0 is proved, t1 <= t2 and t2 <= t3 do not finish in 900 s per query on either solver.
